@@ -109,18 +109,64 @@ def _script(rng, tr, dm, maxs, with_idle):
     return ev
 
 
+def quic_placements(rng, tier):
+    """QuicTransport: Close before the dial starts / during the dial (which then succeeds or fails) / after the
+    dial with exchanges waiting or in flight / twice; 1..3 waiters of the one dialing call."""
+    out = []
+    n = [0]
+
+    def add(dm, ev):
+        out.append("q%d tr=quic dm=%s max=64 it=30000 ev=%s" % (n[0], dm, ",".join(ev)))
+        n[0] += 1
+
+    for w in (1, 2, 3):
+        xs = ["x"] * w
+        for late in ("dok0", "dfail0"):
+            add("ignore", xs + ["close", late])                       # Close during the dial, dial ends later
+            add("ignore", xs + ["close", "close", late, "x"])         # ... Close twice, new exchange afterwards
+            add("ignore", xs + ["close", late, "close"])
+        add("honour", xs + ["close"])                                  # dialer gives up at Close
+        add("honour", xs + ["close", "x", "close"])
+        add("honour", xs + ["dok0", "close"])                          # Close with exchanges in flight on the conn
+        add("ignore", xs + ["dok0", "close", "x"])
+        add("honour", xs + ["dfail0", "close"])
+    add("honour", ["close", "x", "close"])                             # Close before any dial
+    add("ignore", ["close", "x", "x"])
+    add("honour", ["x", "dok0", "reply0", "close", "close"])           # cached idle connection
+    add("honour", ["x", "dok0", "reply0", "x", "close", "x"])          # in flight on the cached (reused) connection
+    add("ignore", ["x", "dok0", "reply0", "idle", "x", "close", "dok1"])   # dead cached conn, re-dial, Close, late dial
+    add("ignore", ["x", "dok0", "x", "perr0", "close", "dok1"])        # retry dial in flight at Close, succeeds late
+    add("ignore", ["x", "cancel0", "close", "dok0"])                   # caller gone, Close, late dial
+    add("ignore", ["x", "x", "cancel0", "close", "dok0", "x"])
+    reps = budget(tier, 0, 40)
+    for _ in range(reps):
+        w = rng.randint(1, 4)
+        ev = ["x"] * w + ["close"] + [rng.choice(["dok0", "dfail0"])]
+        for _ in range(rng.randint(0, 3)):
+            ev.insert(rng.randrange(len(ev) + 1), rng.choice(["x", "close", "cancel%d" % rng.randrange(w)]))
+        add(rng.choice(["ignore", "honour"]), ev)
+    return out
+
+
 def closerace_gen(rng, tier):
     out = []
-    n = budget(tier, 160, 3000)
+    n = budget(tier, 180, 3600)
     for i in range(n):
-        tr = rng.choice(['reuse', 'pipeline'])
+        tr = rng.choice(['reuse', 'pipeline', 'quic'])
         dm = rng.choice(['honour', 'ignore'])
         maxs = rng.choice([1, 2, 64]) if tr == 'pipeline' else 64
-        with_idle = rng.random() < 0.15
-        it = 300 if with_idle else 30000
-        ev = _script(rng, tr, dm, maxs, with_idle)
+        if tr == 'quic':
+            # one cached connection shared by all exchanges, one dialing call joined by all waiters: the
+            # event tracker of the pipeline transport (max 64) fits; "idle" kills the fake connections at once
+            with_idle = rng.random() < 0.3
+            it = 30000
+            ev = _script(rng, 'pipeline', dm, 64, with_idle)
+        else:
+            with_idle = rng.random() < 0.15
+            it = 300 if with_idle else 30000
+            ev = _script(rng, tr, dm, maxs, with_idle)
         out.append("g%d tr=%s dm=%s max=%d it=%d ev=%s" % (i, tr, dm, maxs, it, ",".join(ev)))
-    return out
+    return out + quic_placements(rng, tier)
 
 
 def closerace_oracle(line, res):
@@ -334,8 +380,8 @@ PROPS["C18"] = dict(
              env={}),
     ],
     rule="closerace: scripts of external events (exchange start, dial ok/fail, server reply, peer error, caller "
-         "cancel, idle time-out, Close) replayed on the real ReuseConnTransport / PipelineTransport with a gated "
-         "counting dialer, Close placed at a random point (classes: Close first / while dials or replies are "
+         "cancel, idle time-out, Close) replayed on the real ReuseConnTransport / PipelineTransport / QuicTransport "
+         "(fake quic.Connection counting CloseWithError) with a gated counting dialer, Close placed at a random point (classes: Close first / while dials or replies are "
          "pending / at quiescence, honouring and context-ignoring dialer, idle timer); upclose: every upstream "
          "scheme x {never used, used, exchange in flight against a silent peer}, one child process per case; "
          "startup: failing listener at every position of a list holding all 8 listener kinds (port in use, "
